@@ -396,6 +396,142 @@ def build_doc(spec):
 
 
 # ---------------------------------------------------------------------------
+# user edits of a live tree between queries (the answers must follow the tree, not the history)
+# ---------------------------------------------------------------------------
+
+EDIT_ATTRS = [('class', 'a'), ('class', 'b c'), ('class', 'x'), ('id', 'd1'), ('id', 'zz'), ('lang', 'en'), ('lang', 'de'),
+              ('lang', ''), ('xml:lang', 'en'), ('dir', 'rtl'), ('dir', 'ltr'), ('dir', 'auto'), ('checked', ''),
+              ('disabled', ''), ('required', ''), ('selected', ''), ('open', ''), ('type', 'radio'), ('type', 'checkbox'),
+              ('type', 'text'), ('type', 'submit'), ('type', 'number'), ('name', 'r1'), ('name', 'r2'), ('href', '#e'),
+              ('value', '3'), ('value', '99'), ('min', '5'), ('max', '1'), ('content', 'fr'), ('http-equiv', 'content-language'),
+              ('placeholder', 'p'), ('k', '1'), ('K', '2'), ('multiple', ''), ('readonly', ''), ('contenteditable', 'true')]
+EDIT_TAGS = [('p', {}), ('p', {'class': 'a'}), ('span', {'lang': 'de'}), ('li', {'class': 'c'}), ('input', {'type': 'radio', 'name': 'r1', 'checked': ''}),
+             ('input', {'type': 'submit'}), ('a', {'href': '#n'}), ('div', {'dir': 'rtl'}), ('option', {'selected': ''}),
+             ('meta', {'http-equiv': 'content-language', 'content': 'de'}), ('item', {'k': '1'}), ('button', {})]
+
+
+# selectors whose answer an edit of that kind is likely to change (asked before and after the edit)
+EDIT_ALIGNED = {
+    'text': [':-soup-contains(hello)', ':-soup-contains-own(world)', ':-soup-contains("foo bar", x)', ':empty', 'p:not(:empty)',
+             ':-soup-contains(Test) > *', ':dir(auto)', 'bdi:dir(rtl), :dir(ltr)', ':has(:-soup-contains-own(a))'],
+    'class': ['.a', '.b.c', '.x', ':nth-child(1 of .a)', ':not(.a)', '[class~=b]', ':is(.a, .x) > *', ':nth-last-child(1 of .x)'],
+    'id': ['#d1', '#zz', '[id]', ':not(#d1)', '#d1 ~ *'],
+    'lang': [':lang(en)', ':lang(de)', ':lang("")', ':lang("*")', 'p:lang(fr)', ':not(:lang(en))', ':lang(de) > :lang(en)'],
+    'dir': [':dir(rtl)', ':dir(ltr)', ':dir(rtl) > :dir(ltr)', ':not(:dir(ltr))'],
+    'form': [':checked', ':indeterminate', ':default', ':disabled', ':enabled', ':required', ':optional', ':read-write',
+             ':in-range', ':out-of-range', ':placeholder-shown', 'input:not(:checked)', ':default, :indeterminate',
+             'option:checked', ':link', ':any-link'],
+    'attr': ['[k]', '[k="1"]', '[K]', '[type=radio]', '[type="RADIO" i]', '[href^="#"]', '[value]', '[name=r1]', '[content]'],
+    'struct': [':first-child', ':last-child', ':only-child', ':nth-child(2)', ':nth-last-child(1 of p)', ':empty', ':root',
+               ':has(> p)', ':has(+ p)', 'p ~ p', ':nth-of-type(2)', ':only-of-type', 'li:nth-child(2 of .c) li:nth-child(1)',
+               ':default', ':indeterminate', ':lang(de)', ':dir(rtl)', 'form :checked', ':not(:has(*))'],
+}
+_FORM_ATTRS = {'checked', 'disabled', 'required', 'selected', 'type', 'name', 'href', 'value', 'min', 'max', 'placeholder',
+               'multiple', 'readonly', 'open', 'contenteditable'}
+
+
+def edit_family(edit):
+    kind = edit[0]
+    if kind == 'text':
+        return 'text'
+    if kind in ('move', 'remove', 'new'):
+        return 'struct'
+    name = edit[2]
+    if isinstance(name, int):
+        return 'attr'
+    if name in ('class', 'id', 'dir'):
+        return name
+    if name in ('lang', 'xml:lang', 'content', 'http-equiv'):
+        return 'lang'
+    if name in _FORM_ATTRS:
+        return 'form'
+    return 'attr'
+
+
+def gen_edit(rng):
+    r = rng.random()
+    i = rng.randint(0, 60)
+    if r < 0.38:
+        name, val = rng.choice(EDIT_ATTRS)
+        return ['attr', i, name, val]
+    if r < 0.58:
+        if rng.random() < 0.5:
+            return ['delattr', i, rng.randint(0, 5)]    # the n-th attribute the element has
+        return ['delattr', i, rng.choice(['class', 'id', 'lang', 'dir', 'checked', 'disabled', 'type', 'name', 'href', 'value',
+                                          'required', 'selected', 'content', 'xml:lang', 'k'])]
+    if r < 0.70:
+        return ['text', i, rng.choice(TEXTS + ['hello world', 'x'])]
+    if r < 0.80:
+        return ['move', i, rng.randint(0, 60)]
+    if r < 0.88:
+        return ['remove', i]
+    name, attrs = rng.choice(EDIT_TAGS)
+    return ['new', i, name, dict(attrs), rng.randint(0, 3)]
+
+
+def apply_edit(root, edit):
+    """Apply one user edit to a parsed tree through the public Beautiful Soup API.  Elements are addressed by their
+    document-order index modulo the number of elements, so the same edit list applies to any copy of the document.
+    Returns True when the tree changed."""
+
+    import bs4
+    els = [e for e in root.descendants if isinstance(e, bs4.Tag)]
+    if not els:
+        return False
+    kind = edit[0]
+    el = els[edit[1] % len(els)]
+    if kind == 'attr':
+        el[edit[2]] = edit[3]
+        return True
+    if kind == 'delattr':
+        if isinstance(edit[2], int):
+            names = sorted(el.attrs)
+            if not names:
+                return False
+            del el[names[edit[2] % len(names)]]
+            return True
+        if edit[2] in el.attrs:
+            del el[edit[2]]
+            return True
+        return False
+    if kind == 'text':
+        for c in el.contents:
+            if type(c) is bs4.NavigableString:
+                c.replace_with(bs4.NavigableString(edit[2]))
+                return True
+        el.append(bs4.NavigableString(edit[2]))
+        return True
+    if kind == 'move':
+        dst = els[edit[2] % len(els)]
+        if dst is el or any(p is el for p in dst.parents) or el.parent is None:
+            return False
+        dst.append(el.extract())
+        return True
+    if kind == 'remove':
+        if len(els) < 3 or el.parent is None:
+            return False
+        el.extract()
+        return True
+    if kind == 'new':
+        maker = root if isinstance(root, bs4.BeautifulSoup) else bs4.BeautifulSoup('', 'html.parser')
+        t = maker.new_tag(edit[2], attrs=dict(edit[3]))
+        el.insert(min(edit[4], len(el.contents)), t)
+        return True
+    raise ValueError(edit)
+
+
+def build_state(specs, state):
+    """A slot state is a spec index, or [spec index, [edits...]]: the spec parsed afresh, then edited."""
+
+    if isinstance(state, int):
+        return build_doc(specs[state])
+    soup = build_doc(specs[state[0]])
+    for e in state[1]:
+        apply_edit(soup, e)
+    return soup
+
+
+# ---------------------------------------------------------------------------
 # selectors
 # ---------------------------------------------------------------------------
 
